@@ -1195,3 +1195,132 @@ Proof.
   split; [|exact (conj (only_attr_set _ _) (conj (only_attr_set _ _) E5))].
   unfold error_new. rewrite E1, E2, E3, E4. destruct text; reflexivity.
 Qed.
+
+(* ==================================================================================== *)
+(* F. render / parse round trip                                                         *)
+(* ==================================================================================== *)
+(* the abstract document a DOM tree stands for, with dns the default namespace in scope: adjacent text
+   nodes merge, empty text disappears, an element's own xmlns attribute (or else the inherited one) is its
+   namespace and is not listed among the attributes *)
+Definition flush (acc : bstr) : list xtree := match acc with [] => [] | _ :: _ => [XText acc] end.
+
+Section CanonList.
+  Variable f : tree -> xtree.
+  Fixpoint canon_list (cs : list tree) (acc : bstr) {struct cs} : list xtree :=
+    match cs with
+    | [] => flush acc
+    | Text s :: r => canon_list r (acc ++ s)
+    | Unk :: r => canon_list r acc
+    | (Tag _ _ _ as e) :: r => flush acc ++ f e :: canon_list r []
+    end.
+End CanonList.
+
+Definition own_ns (a : attrs) (dns : bstr) : bstr :=
+  match attr_get a xmlns_key with Some v => v | None => dns end.
+Definition attr_items (a : attrs) : list (bstr * bstr) :=
+  match a with Some h => hash_items h | None => [] end.
+Definition canon_attrs (a : attrs) : list (bstr * bstr) :=
+  filter (fun kv => negb (xeq (fst kv) xmlns_name)) (attr_items a).
+
+Fixpoint canon (dns : bstr) (t : tree) : xtree :=
+  match t with
+  | Unk => XText []
+  | Text s => XText s
+  | Tag name a cs => XElem (own_ns a dns) name (canon_attrs a) (canon_list (canon (own_ns a dns)) cs [])
+  end.
+
+(* names the parser can read back: non-empty runs of name bytes *)
+Definition good_name (n : bstr) : Prop := n <> [] /\ forallb name_byte n = true.
+
+Inductive rt_wf : tree -> Prop :=
+| rtw_text : forall s, rt_wf (Text s)
+| rtw_tag : forall name a cs, good_name name -> attrs_ok a ->
+    (forall k v, In (k, v) (attr_items a) -> good_name k) ->
+    Forall rt_wf cs -> rt_wf (Tag name a cs).
+
+(* ---- formats ---- *)
+Lemma fmt_open_eq : forall name, format fmt_open [name] = 60 :: name.
+Proof. intro. unfold fmt_open. rewrite formats_eq. cbn. rewrite app_nil_r. reflexivity. Qed.
+Lemma fmt_attr_eq : forall k e, format fmt_attr [k; e] = 32 :: k ++ 61 :: 34 :: e ++ [34].
+Proof. intros. unfold fmt_attr. rewrite formats_eq. cbn. reflexivity. Qed.
+Lemma fmt_text_eq : forall e, format fmt_text [e] = e.
+Proof. intro. unfold fmt_text. rewrite formats_eq. cbn. rewrite app_nil_r. reflexivity. Qed.
+Lemma fmt_close_eq : forall name, format fmt_close [name] = 60 :: 47 :: name ++ [62].
+Proof. intro. unfold fmt_close. rewrite formats_eq. cbn. reflexivity. Qed.
+Lemma fmt_empty_eq : fmt_empty = [47; 62].
+Proof. unfold fmt_empty. rewrite formats_eq. reflexivity. Qed.
+Lemma fmt_gt_eq : fmt_gt = [62].
+Proof. unfold fmt_gt. rewrite formats_eq. reflexivity. Qed.
+
+(* ---- scanning ---- *)
+Definition stops (p : Z -> bool) (X : xstr) : Prop := match X with [] => True | c :: _ => p c = false end.
+
+Lemma span_app_stop : forall p a X, forallb p a = true -> stops p X -> span p (a ++ X) = (a, X).
+Proof.
+  intros p a X. induction a as [|c a IH]; intros F S.
+  - cbn [app]. destruct X as [|x X]; [reflexivity|]. cbn [span]. cbn in S. rewrite S. reflexivity.
+  - cbn [forallb] in F. apply andb_true_iff in F. destruct F as [F1 F2].
+    cbn [app span]. rewrite F1. rewrite IH by assumption. reflexivity.
+Qed.
+
+Lemma xeq_true_iff : forall a b, xeq a b = true <-> a = b.
+Proof.
+  induction a as [|x a IH]; destruct b as [|y b]; cbn [xeq]; split; intro H; try congruence; try discriminate.
+  - apply andb_true_iff in H. destruct H as [H1 H2]. apply IH in H2. f_equal; [lia|exact H2].
+  - injection H as -> ->. apply andb_true_iff. split; [lia|apply IH; reflexivity].
+Qed.
+Lemma xeq_refl : forall a, xeq a a = true.
+Proof. intro. apply xeq_true_iff. reflexivity. Qed.
+Lemma xeq_beq : forall a b, xeq a b = beq a b.
+Proof.
+  intros. destruct (beq a b) eqn:E.
+  - apply beq_true_iff in E. subst. apply xeq_refl.
+  - destruct (xeq a b) eqn:E2; [|reflexivity]. apply xeq_true_iff in E2. subst. rewrite beq_refl in E. discriminate.
+Qed.
+
+Lemma has_false_forallb : forall c s, has c s = false -> forallb (fun x => negb (x =? c)) s = true.
+Proof.
+  intros c s. unfold has. induction s as [|x s IH]; intro H; [reflexivity|].
+  cbn [existsb] in H. apply orb_false_iff in H. destruct H as [H1 H2].
+  cbn [forallb]. rewrite IH by exact H2. rewrite Z.eqb_sym, H1. reflexivity.
+Qed.
+
+Lemma good_name_head : forall n, good_name n -> exists c r, n = c :: r /\ name_byte c = true.
+Proof.
+  intros [|c r] (N & F); [congruence|]. exists c, r. split; [reflexivity|].
+  cbn [forallb] in F. apply andb_true_iff in F. tauto.
+Qed.
+
+(* ---- attributes ---- *)
+Definition attr_str (kv : bstr * bstr) : bstr := 32 :: fst kv ++ 61 :: 34 :: xml_escape (snd kv) ++ [34].
+
+Lemma p_attrs_render : forall L Y fuel,
+  (forall k v, In (k, v) L -> good_name k) ->
+  (exists c Y', Y = c :: Y' /\ is_ws c = false /\ name_byte c = false) ->
+  (length L < fuel)%nat ->
+  p_attrs fuel (flat_map attr_str L ++ Y) = Some (L, Y).
+Proof.
+  induction L as [|[k v] L IH]; intros Y fuel G (c & Y' & -> & W & NB) HF.
+  - destruct fuel as [|f]; [cbn in HF; lia|].
+    cbn [flat_map app p_attrs span]. rewrite W, NB. reflexivity.
+  - destruct fuel as [|f]; [cbn in HF; lia|].
+    destruct (good_name_head k (G k v (or_introl eq_refl))) as (k0 & kr & -> & NB0).
+    assert (GK : forallb name_byte (k0 :: kr) = true) by (apply (G (k0 :: kr) v); left; reflexivity).
+    assert (W0 : is_ws k0 = false).
+    { destruct (is_ws k0) eqn:W0; [|reflexivity]. unfold name_byte in NB0. rewrite W0 in NB0. cbn in NB0. discriminate. }
+    set (tl := flat_map attr_str L ++ c :: Y').
+    replace (flat_map attr_str ((k0 :: kr, v) :: L) ++ c :: Y')
+      with (32 :: (k0 :: kr) ++ 61 :: 34 :: xml_escape v ++ [34] ++ tl).
+    2:{ cbn [flat_map]. unfold attr_str at 2. cbn [fst snd]. unfold tl.
+        cbn [app]. rewrite <- !app_assoc. cbn [app]. rewrite <- !app_assoc. reflexivity. }
+    cbn [p_attrs]. cbn [span]. replace (is_ws 32) with true by reflexivity.
+    cbn [span app]. rewrite W0. rewrite NB0.
+    rewrite app_comm_cons.
+    rewrite (span_app_stop name_byte (k0 :: kr)); [|exact GK|reflexivity].
+    destruct (escape_no_special v) as (E1 & E2 & E3).
+    rewrite (span_app_stop (fun c0 => negb (c0 =? 34)) (xml_escape v));
+      [|apply has_false_forallb; exact E3|reflexivity].
+    cbn [app]. rewrite E1. rewrite unescape_escape.
+    unfold tl. rewrite IH; [reflexivity| |exists c, Y'; auto|cbn in HF; lia].
+    intros k' v' HI. apply (G k' v'). right. exact HI.
+Qed.
